@@ -17,6 +17,7 @@ package helper
 func Apply[T Number](c <-chan T, f func(T) T) <-chan T {
 	ac := make(chan T)
 
+	VerifStage("Apply", 0, []any{c}, []any{ac})
 	go func() {
 		defer close(ac)
 
